@@ -148,6 +148,14 @@ CHECKS = {
          'decision must match the ISO token classes, quoted text must decode back to the atom, write must emit the raw characters; '
          'write_canonical and ignore_ops(true) output of compound terms is compared with functional notation.',
     note='ASCII atoms only are classified (non-ASCII left to the C15 round trip). Either quote-escaping style is accepted. K29b is a KNOWN-FINDING.'),
+ 'C45': dict(
+    level='exploration',
+    technique='runtime monitoring: reference model derived from the generator\'s own placement of variable tokens in clause text',
+    text='Generated clause texts (named, _-prefixed and anonymous variables in random repetition patterns, under operators, in '
+         'lists/curly terms, with decoys inside quoted atoms, strings, 0\'c codes and comments) are read with read_term_from_chars/3 '
+         'and read_term/3 on a file stream with every subset/order of variables/1, variable_names/1, singletons/1; the lists must '
+         'contain exactly the placed variables (first-occurrence order; singletons as a set), bound to the right positions of the term.',
+    note='The generator writes bracketed operator terms so the text order of variables is their left-to-right order in the term.'),
 }
 
 NOT_APPLICABLE_REASON_UNBUILT = ('check designed in DESIGN.md but not built/validated yet in this session; '
